@@ -93,6 +93,7 @@ static int run_case(const struct kase *k, struct res *r, int verbose) {
         return 0;
     }
     /* ORACLE c01 */
+    if ((k->coin & 15) == 5) { inject(0); }      /* injecting the same dependencies again leaves the enabled mask alone */
     obs o0, o1, o2; char why[300];
     observe(s, k->coin, &o0); r->calls += 13;
     if (!obs_matches_ref(&o0, &k->r, k->coin, why, sizeof why)) FAIL("source", "loaded seed does not present the reference data: %s", why);
@@ -256,13 +257,22 @@ static void work_e(long lo, long hi, struct res *r, void *arg) {
         if ((x & 7) == 3) E.clock[0] = R_EPOCH + (1024 + prng(&ps) % 3000) * R_STEP + 99;      /* after the documented range: only the month index wraps */
         if ((x & 63) == 5) E.clock[0] = (x & 64) ? UINT64_MAX : 1000 + (uint64_t)x;              /* error value / before the epoch */
         unsigned f = (unsigned)(prng(&ps) & 7);
-        unsigned farg = f | ((x & 16) ? 0xFFFFFF00u : 0);                                     /* argument bits above the three feature bits do not count */
+        static const unsigned HIGHARG[8] = { 0, 0xFFFFFF00u, 0x8, 0x10, 0x20, 0x40, 0xFFFFFFF8u, 0x80000018u };
+        unsigned farg = f | HIGHARG[(x >> 4) & 7];                                            /* argument bits above the three feature bits do not count */
         polyseed_enable_features(7);
         polyseed_data *s = NULL;
         if (polyseed_create(farg, &s) != POLYSEED_OK) { res_viol(r, "c01:create", "", "create failed"); continue; }
         /* what the model says this seed is, from the inputs alone */
         struct kase k; memset(&k.r, 0, sizeof k.r); memcpy(k.r.secret, E.tape[0], 19); k.r.secret[18] &= 0x3F; k.r.birthday = ref_birthday_index(E.clock[0]); k.r.features = f;
         if (x & 1) { polyseed_crypt(s, "pass\xC3\xA9"); ref_crypt(&k.r, E.mask); }
+        /* the created object itself (not a reloaded copy): what it presents, the phrase it writes, and that phrase read back */
+        { obs oc; char why[300]; unsigned c2 = (unsigned)(x * 131) & 2047; observe(s, c2, &oc); r->calls += 13;
+          if (!obs_matches_ref(&oc, &k.r, c2, why, sizeof why) && !((x & 1))) { char rep[200], h[70]; hex(E.tape[0], 19, h); snprintf(rep, sizeof rep, "created %s %llu %u", h, (unsigned long long)E.clock[0], farg); res_viol(r, ORACLE == 1 ? "c01:created-object" : "c03:created-object", rep, "the seed object returned by create(%#x) does not present the model seed (random bytes, month index, three feature bits): %s", farg, why); polyseed_free(s); continue; }
+          if (!(x & 1)) { polyseed_str ph; size_t n = polyseed_encode(s, polyseed_get_lang(li), (polyseed_coin)c2, ph); char refph[2048]; size_t rn = ref_phrase(&k.r, li, c2, refph, 0); r->calls++;
+            if (n != rn || memcmp(ph, refph, rn + 1)) { res_viol(r, ORACLE == 1 ? "c01:created-phrase" : "c03:created-phrase", "", "the phrase written for a seed made by create(%#x) differs from the reference phrase of (random bytes, month index, three feature bits)", farg); polyseed_free(s); continue; }
+            polyseed_data *d = NULL; int ds = polyseed_decode_explicit(ph, (polyseed_coin)c2, polyseed_get_lang(li), &d); r->calls++;
+            if (ds != POLYSEED_OK) { res_viol(r, ORACLE == 1 ? "c01:created-decode" : "c03:created-decode", "", "the phrase of a seed made by create(%#x) is refused by decode_explicit (%s) with status %d", farg, RL[li].code, ds); polyseed_free(s); continue; }
+            obs od; observe(d, c2, &od); polyseed_free(d); r->calls += 14; if (!obs_eq(&oc, &od)) { res_viol(r, ORACLE == 1 ? "c01:created-roundtrip" : "c03:created-roundtrip", "", "a seed made by create(%#x) and the seed decoded from its phrase differ (serialisation, getters or KDF inputs)", farg); polyseed_free(s); continue; } } }
         uint8_t st[32], exp[32]; polyseed_store(s, st); polyseed_free(s); r->calls += 4; ref_storage(&k.r, exp);
         if (memcmp(st, exp, 32)) { char rep[200], h[70]; hex(E.tape[0], 19, h); snprintf(rep, sizeof rep, "created %s %llu %u", h, (unsigned long long)E.clock[0], farg); res_viol(r, ORACLE == 1 ? "c01:created-seed" : "c03:created-seed", "", "seed made by create(%#x)%s with clock %llu does not serialise to the model seed (random bytes, month index, three feature bits)", farg, (x & 1) ? "+crypt" : "", (unsigned long long)E.clock[0]); continue; }
         k.li = li; k.mask = 7; k.coin = (unsigned)(prng(&ps) & 2047);
